@@ -5,8 +5,9 @@
    half_year_spec = 15778476 s (365.2425 d / 2) and the one-day window it grants is
    (now - half_year_spec, now - half_year_spec + 1 d]. *)
 From Coq Require Import ZArith List Bool.
-From Verif Require Import Lib.Sx Lib.PyStr Lib.PyStr2 Lib.Civil Model.LsDate Model.Listing.
-From Verif Require Import Proofs.PyStr2Facts Proofs.CivilFacts Proofs.LsDateFacts Proofs.ListingFacts.
+From Verif Require Import Lib.Sx Lib.PyStr Lib.PyStr2 Lib.Civil Model.LsDate Model.Listing Model.ListingClient.
+From Verif Require Import Proofs.PyStr2Facts Proofs.CivilFacts Proofs.LsDateFacts Proofs.ListingFacts Proofs.ListingClientFacts.
+From Verif Require Model.Framing.
 From Verif Require Import Gen.Consts.
 Import ListNotations.
 Open Scope Z_scope.
@@ -224,4 +225,128 @@ Proof.
   unfold plain_entry, strip_fixed. cbn [st_mode st_nlink st_size].
   repeat split; try (vm_compute; congruence); try discriminate; try (left; vm_compute; reflexivity);
     try (right; vm_compute; reflexivity).
+Qed.
+
+(* ---------------- Client.list() / Client.stat(): the glue around the line parsers ---------------- *)
+(* Client.list(raw_command="LIST"), or the fallback after a 50x answer to MLSD, on the lines the
+   server's LIST worker writes for an arbitrary directory: every entry that exists exactly once, in
+   order, none invented, with name, type, permission bits, link count, size and the date to the
+   format's precision — whatever the Windows / custom parsers later in the chain would do.
+   FULL STATEMENT (all entries) is refuted by C07_list_mode_ST_refuted / C07_client_list_ST_refuted
+   and C07_list_leading_space_refuted; PROVED for plain entries (regular files and directories
+   without S/T letters, names without leading/trailing whitespace) outside the one-day window. *)
+Theorem C07_client_list_exact_partial : forall off now now' others dir,
+  now <= now' <= now + HOUR -> yr (client_now off now') <= 9999 ->
+  Forall (list_item_ok off now) (present dir) ->
+  client_collect (parse_list_line (parse_list_line_unix HALF TWO (client_now off now')) others) (fun _ => true)
+                 (list_lines HALF off now dir)
+  = Ok (map (fun r => (fst r, list_info (snd r) (expected_modify off now (snd r)))) (present dir)).
+Proof. exact (fun off now now' others dir => client_list_exact HALF TWO off now now' others dir consts_proof). Qed.
+Print Assumptions C07_client_list_exact_partial.
+
+(* F13b seen from Client.list(): one S/T entry anywhere in the directory makes the whole LIST
+   listing raise (when the other parsers of the chain reject that line as well) *)
+Theorem C07_client_list_ST_refuted : forall nowdt others pre post st ds name,
+  Forall (fun x => exists r, parse_list_line (parse_list_line_unix HALF TWO nowdt) others x = Ok r /\ true = true) pre ->
+  no_ST (st_mode st) = false -> name <> [] -> rstrip name = name ->
+  Forall (fun p => exists t, p (build_list_string_with st ds name) = Err t) others ->
+  client_collect (parse_list_line (parse_list_line_unix HALF TWO nowdt) others) (fun _ => true)
+                 (pre ++ build_list_string_with st ds name :: post) = Err E_VALUE.
+Proof. exact (client_list_ST_fails HALF TWO). Qed.
+Print Assumptions C07_client_list_ST_refuted.
+
+(* the default path: Client.list() over MLSD through the same loop *)
+Theorem C07_client_mlsd_exact : forall dir,
+  Forall (fun e => entry_name_ok (de_name e)) dir ->
+  client_collect (fun l => Ok (parse_mlsx_line l)) entry_has_type (mlsd_lines dir)
+  = Ok (map (fun e => (de_name e, entry_of (mlsx_facts (de_stat e) (de_kind e)))) dir).
+Proof. exact client_mlsd_collect. Qed.
+Print Assumptions C07_client_mlsd_exact.
+
+(* which command reads the listing: MLSD unless it is answered 50x (then LIST, only when the caller
+   did not force MLSD), LIST when forced *)
+Theorem C07_list_plan :
+  list_plan_of 0 false = UseMLSD /\ list_plan_of 0 true = UseLIST /\
+  list_plan_of 1 false = UseMLSD /\ list_plan_of 1 true = RaiseStatus /\
+  (forall b, list_plan_of 2 b = UseLIST).
+Proof. exact list_plan_cases. Qed.
+Print Assumptions C07_list_plan.
+
+(* the LIST fallback tells the same type and size as MLSD (and the link count and permission bits
+   of the backend) for every entry of a backend whose is_file/is_dir agree with st_mode *)
+Theorem C07_list_agrees_with_mlsd : forall st kind modify,
+  kind_consistent st kind ->
+  let info := list_info st modify in
+  let entry := entry_of (mlsx_facts (Some st) kind) in
+  dict_get l_type entry = Some (li_type info) /\
+  dict_get l_size entry = Some (li_size info) /\
+  li_size info = str_of_Z (st_size st) /\
+  li_links info = str_of_Z (st_nlink st) /\
+  li_mode info = mode_view (st_mode st).
+Proof. exact list_agrees_with_mlsd. Qed.
+Print Assumptions C07_list_agrees_with_mlsd.
+
+(* MLST: Server.mlst's reply through write_response, the wire and the client's parse_response
+   (the C06 framing model), then Client.stat's info[1].lstrip() and parse_mlsx_line: exactly the
+   entry's own facts, for every stats/kind, every name without LF and trailing whitespace, and
+   whatever follows on the control stream *)
+Theorem C07_mlst_roundtrip : forall st kind name k,
+  name_ok name -> avoids 10 name ->
+  exists wl info,
+    Model.Framing.write_response c250 (mlst_lines st kind name) true = Some wl /\
+    Model.Framing.parse_response (Model.Framing.split_lines (Model.Framing.wire wl ++ k))
+      = Model.Framing.POk c250 info (Model.Framing.split_lines k) /\
+    client_stat_mlst info = Ok (entry_of (mlsx_facts st kind)).
+Proof. exact mlst_roundtrip. Qed.
+Print Assumptions C07_mlst_roundtrip.
+
+(* Client.stat's fallback (MLST answered 50x): the parent's listing searched for path.name gives
+   that entry's own line — entries of one directory have distinct names — and a name that is not
+   there is reported missing, not invented *)
+Theorem C07_stat_via_list_exact : forall off now dir r,
+  NoDup (map fst (present dir)) -> In r (present dir) ->
+  client_stat_via_list (fst r)
+    (map (fun r => (fst r, list_info (snd r) (expected_modify off now (snd r)))) (present dir))
+  = Some (list_info (snd r) (expected_modify off now (snd r))).
+Proof. exact stat_via_list_exact. Qed.
+Print Assumptions C07_stat_via_list_exact.
+
+Theorem C07_stat_via_mlsd_exact : forall dir e,
+  NoDup (map de_name dir) -> In e dir ->
+  client_stat_via_list (de_name e)
+    (map (fun e => (de_name e, entry_of (mlsx_facts (de_stat e) (de_kind e)))) dir)
+  = Some (entry_of (mlsx_facts (de_stat e) (de_kind e))).
+Proof. exact stat_via_mlsd_exact. Qed.
+Print Assumptions C07_stat_via_mlsd_exact.
+
+Theorem C07_stat_via_list_missing : forall off now dir n,
+  ~ In n (map fst (present dir)) ->
+  client_stat_via_list n
+    (map (fun r => (fst r, list_info (snd r) (expected_modify off now (snd r)))) (present dir)) = None.
+Proof. exact stat_via_list_missing. Qed.
+Print Assumptions C07_stat_via_list_missing.
+
+(* non-vacuity: a directory with a file, a vanished entry, a directory *)
+Example C07_client_list_hypotheses_satisfiable :
+  let now := 1709251230 in
+  let dir := [ mkdentry [97; 32; 98] (Some (mkstats 1099511627776 0 1709251230 1 33188)) K_FILE;
+               mkdentry [103] None K_UNKNOWN;
+               mkdentry [100] (Some (mkstats 0 0 951782400 2 16877)) K_DIR ] in
+  Forall (list_item_ok 10800 now) (present dir) /\ NoDup (map fst (present dir)) /\
+  kind_consistent (mkstats 0 0 951782400 2 16877) K_DIR.
+Proof.
+  cbn zeta. split; [|split].
+  - unfold present. cbn [flat_map de_stat de_name app].
+    apply Forall_cons; [|apply Forall_cons; [|apply Forall_nil]]; (split; [|split; [|split]]); cbn [fst snd st_mtime].
+    + exact (proj1 C07_plain_entry_satisfiable).
+    + split; discriminate.
+    + vm_compute. split; congruence.
+    + left. vm_compute. split; [reflexivity|congruence].
+    + exact (proj2 C07_plain_entry_satisfiable).
+    + split; discriminate.
+    + vm_compute. split; congruence.
+    + right. left. vm_compute. congruence.
+  - unfold present. cbn [flat_map de_stat de_name app map fst].
+    apply NoDup_cons; [cbn [In]; intros [H|[]]; discriminate|]. apply NoDup_cons; [intros []|apply NoDup_nil].
+  - right. split; reflexivity.
 Qed.
